@@ -46,7 +46,8 @@ class Ctx:
 
     def fail(self, mech, msg, **witness):
         v = {"property": self.pid, "mech": mech, "msg": str(msg)[:2000], "section": self.section,
-             "case": self.case, "seed": self.seed, "tier": self.tier, "witness": _jsonable(witness)}
+             "case": self.case, "seed": self.seed, "tier": self.tier, "hashseed": os.environ.get("PYTHONHASHSEED", ""),
+             "witness": _jsonable(witness)}
         if len(self.violations) < 40:
             self.violations.append(v)
         else:
